@@ -11,14 +11,14 @@ CLAIMED = {
     "C01": (BFS + ", py+cy builds", "Every state of the bounded tree/alphabet/depth space reachable through the real bt objects is visited once and the balance-sheet identities and end-of-date rows are checked on it; exhaustive within the stated bounds, on the interpreted and the compiled build.", "Bounds: trees T1/T2/T3, 22-op alphabet, depth 3 (quick) / 4-5 (thorough), 4 dates, dyadic, decimal and zero-touching price tables; trusted: CPython, pandas/numpy, the identity oracle in btmc/ref.py.", "DESIGN.md 5 C01"),
     "C02": (BFS + " with a per-op P&L oracle + exhaustive run family", "Every transition of the bounded op space and every date of every run of the bounded run family is reconciled against a P&L attribution recomputed from executed trades (spy on transact), the driver's own prices, spreads and fee functions.", "Bounds as C01 with the cost alphabet (5 fee families, spreads, custom prices, non-flow adjusts), FI tree F1; run family = menus of all stock algos; trusted: btmc/ledger.py arithmetic.", "DESIGN.md 5 C02"),
     "C03": (BFS + " with the index recurrence after every op; exhaustive run family; scaled-run triples", "The index recurrence is evaluated against the driver's own tally of flows after every single operation of the bounded space and on every date of every run; capital-scale invariance is decided on enumerated triples of runs.", "Reading: the recurrence is the precise half of the statement (DESIGN 5 C03 note). Bounds: flow-heavy alphabet depth 3/4; capital x{1/1000,1,64}.", "DESIGN.md 5 C03"),
-    "C04": ("exhaustive product: run-family strategies x cut dates x perturbations of every supplied table after the cut; bit-for-bit comparison of truncated histories", "For every strategy of the bounded family, every cut date (all dates for table-driven strategies, 3 spread cuts otherwise; thorough: all) and every perturbation kind, the perturbed run's recorded histories, transactions and weights up to the cut are compared bit-for-bit with the base run's.", "Perturbations: affine rescale, reversal of future rows, column rotation (thorough: every single future cell of the 6-date tables) on prices, stat/signal/target tables, bid/offer, coupons, carry, notional, unit risk.", "DESIGN.md 5 C04"),
-    "C05": ("exhaustive Cartesian grid (price x multiplier x position x amount x spread x fee x mode x build) vs brute-force reference", "Every point of the finite grid is executed on the real allocate path (both builds) and compared with the largest affordable quantity found by bisection on the monotone cost; known sizing defects are pinned point-by-point with their exact wrong outcome so any other deviation is reported.", "Grid: 130k points quick / ~2M thorough per build; fee families none/flat/proportional/per-share/max(flat,per-share); points outside the property's fee domain are not judged.", "DESIGN.md 5 C05"),
+    "C04": ("exhaustive product: run-family strategies x cut dates x perturbations of every supplied table after the cut, plus transaction / RFQ tables (row orders x stamp kinds) at every cut incl. the last bar; bit-for-bit comparison of truncated histories", "For every strategy of the bounded family, every cut date (all dates for table-driven strategies, 3 spread cuts otherwise; thorough: all) and every perturbation kind, the perturbed run's recorded histories, transactions and weights up to the cut are compared bit-for-bit with the base run's.", "Perturbations: affine rescale, reversal of future rows, column rotation (thorough: every single future cell of the 6-date tables) on prices, stat/signal/target tables, bid/offer, coupons, carry, notional, unit risk.", "DESIGN.md 5 C04"),
+    "C05": ("exhaustive Cartesian grid (price x multiplier x position x amount x spread x fee incl. a direction-dependent one x mode x build) and root mode x sub-strategy mode x lazy/declared security, vs brute-force reference", "Every point of the finite grid is executed on the real allocate path (both builds) and compared with the largest affordable quantity found by bisection on the monotone cost; known sizing defects are pinned point-by-point with their exact wrong outcome so any other deviation is reported.", "Grid: 130k points quick / ~2M thorough per build; fee families none/flat/proportional/per-share/max(flat,per-share); points outside the property's fee domain are not judged.", "DESIGN.md 5 C05"),
     "C06": ("exhaustive sequences (depth 2/3) of (price move | same-bar flow, target vector, cash fraction) on flat and nested trees; RebalanceOverTime schedules", "Every sequence of the bounded step alphabet is executed on the real Rebalance algo so that every rebalance but the first starts from a non-trivial prior portfolio; each targeted child's value is compared with (1-c)*w*base within its own trade costs (+ one unit with integer positions), non-targets must be closed, sub-strategy targets must spread capital by child weight.", "Bounds: 8/7 target vectors x 4 cash fractions x 4 moves, depth 2 (quick) / 3; cost models none/proportional/flat+spread/per-share+spread; sequences ending in bankruptcy or a documented guard are skipped.", "DESIGN.md 5 C06"),
     "C07": (BFS + " with a per-node cash ledger oracle + exhaustive run family", "Per executed trade and per node/date the cash ledger is rebuilt from the spy's trade log and the driver's own fee function and compared with capital, fees, flows and outlays on every transition / date.", "Bounds as C02 incl. 3-level tree T3 with fees; trusted: btmc/ledger.py.", "DESIGN.md 5 C07"),
-    "C08": ("deviation-bounded placement: every history x every position x {1,2,3 redundant updates}; every prefix x every (node, public property) as first read", "All placements of redundant updates and of a first read of any public property inside all op histories up to the bound are executed; snapshots, raw state keys, frozen past rows and series ends are compared exactly.", "Bounds: reduced 11-14 op alphabet, prefixes <= 2 (quick) / 3, histories <= 3 / 4, trees T1,T2,T3,F1(,F2).", "DESIGN.md 5 C08"),
-    "C09": ("exhaustive product: calendar-gated child definitions x parent allocation schedules x modes x capital; pairwise comparison nested vs stand-alone run", "Every (child definition, parent schedule, configuration) of the bounded family is run nested and stand-alone; the child's price series and the parent's universe column must equal the stand-alone index on every date (1e-12).", "Children are deterministic and start with a calendar scheduler (the property's quantifier); schedules: never funded, once, daily re-weighting incl. zero, de-fund/re-fund, levered, shorted, parent going bankrupt, child going bankrupt.", "DESIGN.md 5 C09"),
+    "C08": ("deviation-bounded placement: every history x every position x {0,1,2,3 redundant updates}; every prefix x every (node, public property) as first read", "All placements of redundant updates and of a first read of any public property inside all op histories up to the bound are executed; snapshots, raw state keys, frozen past rows and series ends are compared exactly.", "Bounds: reduced 11-14 op alphabet, prefixes <= 2 (quick) / 3, histories <= 3 / 4, trees T1,T2,T3,F1(,F2).", "DESIGN.md 5 C08"),
+    "C09": ("exhaustive product: calendar-gated child definitions (incl. ranking ties x declared ticker order) x parent allocation schedules (market-value and notional-weighted parents) x modes x capital; pairwise comparison nested vs stand-alone run", "Every (child definition, parent schedule, configuration) of the bounded family is run nested and stand-alone; the child's price series and the parent's universe column must equal the stand-alone index on every date (1e-12).", "Children are deterministic and start with a calendar scheduler (the property's quantifier); schedules: never funded, once, daily re-weighting incl. zero, de-fund/re-fund, levered, shorted, parent going bankrupt, child going bankrupt.", "DESIGN.md 5 C09"),
     "C10": ("exhaustive run family on both builds + enumerated ill-formed situations", "Every backtest of the bounded family (menus containing every stock algo) must complete with finite series and working reports on py and cy; every situation of each ill-formed class must raise and leave earlier rows untouched.", "Family well-formedness conditions in DESIGN 4; the known sizing-guard failures are pinned by their exact allocate request (known/C10-sizing.txt).", "DESIGN.md 5 C10"),
-    "C11": ("all interleavings (linear extensions) of construct/run events of 2-3 backtests from one template; subprocess runs under hash seeds", "All 6 (k=2) and 90 (k=3) event orders are executed for every template; each backtest must equal the same backtest built from a fresh template and run alone, the template's raw state and all input frames must be unchanged after every event, results must agree across PYTHONHASHSEED values, and a finished backtest must not re-run.", "Templates with stateful, in-place-mutating, perm-using and seeded random algos; RNG seeded per run event.", "DESIGN.md 5 C11"),
+    "C11": ("all interleavings (linear extensions) of construct/run events of 2-3 backtests from one template; subprocess runs under hash seeds and with / without earlier backtests in the interpreter", "All 6 (k=2) and 90 (k=3) event orders are executed for every template; each backtest must equal the same backtest built from a fresh template and run alone, the template's raw state and all input frames must be unchanged after every event, results must agree across PYTHONHASHSEED values, and a finished backtest must not re-run.", "Templates with stateful, in-place-mutating, perm-using and seeded random algos; RNG seeded per run event.", "DESIGN.md 5 C11"),
     "C12": ("exhaustive product: every subset of 8-timestamp windows x 5 schedulers x 8 flag settings x every date, x call-skipping deviations; counters over all parameters; real backtests", "All indices that can be formed from hand-picked boundary windows (ISO week 53/1, New Year, leap day, quarter end, intraday, sparse) are enumerated and each scheduler's answer on each date is compared with plain datetime arithmetic, also when the scheduler is not evaluated on every date.", "First/last date are governed by their flags (pinned test_run_period).", "DESIGN.md 5 C12"),
     "C13": ("exhaustive enumeration of stacks (length <= 4/5, nested one level, Or, Not) against a reference interpreter; truth tables; Strategy.run call logs", "Every stack shape of the bounded family is executed on the real AlgoStack/Or/Not and its call log and result compared with a 12-line interpreter; Require and RunIfOutOfBounds tables and the temp/perm/run-order contract of Strategy.run are enumerated.", "run_always applies to direct members of a stack.", "DESIGN.md 5 C13"),
     "C14": ("exhaustive product: universes from a cell alphabet x parameters x prior temp, pipelines of <= 3 selection algos, vs set-builder reference", "Every selection algo is executed on a real Strategy for every universe/parameter combination of the bounded family and compared with plain-Python set-builder definitions (ranked selection relationally).", "include_no_data=True with include_negative=False is undefined by the docs and not judged.", "DESIGN.md 5 C14"),
@@ -27,7 +27,7 @@ CLAIMED = {
     "C17": (BFS + " on fixed-income trees with notional / accrual / additive-index oracles; exhaustive FI backtests", "Every reachable state of the bounded op space on the fixed-income trees F1 (five security kinds) and F2 (FI child strategy) is checked for notional, notional weights, coupon and holding-cost accrual and payment timing, the additive index and Rebalance-to-notional; FI backtests check the index on every date and RenormalizedFixedIncomeResult.", "Bounds: 27-op alphabet depth 3 (quick) / 4, coupon and asymmetric carry tables, spreads, commissions, multipliers, a zero-mark variant.", "DESIGN.md 5 C17"),
     "C18": ("exhaustive run family (incl. runs with negative root value); every report recomputed from node histories; transaction round trip", "For every finished run of the bounded family each report (weights, security weights, positions, transactions, turnover, HHI, Result prices) is recomputed from the recorded node histories, and get_transactions() is replayed through ReplayTransactions.", "Round trip compares positions always, values on flat trees without flows.", "DESIGN.md 5 C18"),
     "C19": ("exhaustive enumeration of tree construction recipes (<= 3 levels) with a structure walker; lazy/eager/undeclared run triples; shared-node cases", "Every recipe (children as node / string / lazy node / dict entry / parent= attachment, duplicates included) is built on the real classes and walked; universe columns, settings pushed from the root and lazily created children are checked after set-up; every flat run of the family is executed in its lazy, eager and undeclared variant and compared.", "Lazy vs eager bit-for-bit with integer positions on the exact alphabet, 1e-9 otherwise.", "DESIGN.md 5 C19"),
-    "C20": ("exhaustive product: trees x multipliers x positions x unit-risk tables x history depth; hedge instrument sets; all close/roll date assignments in real backtests", "Risk aggregation is recomputed independently for every node and date of every case; after HedgeRisks the residual risk must be zero (square) or least-squares minimal; every assignment of close / roll dates to two securities is run in a backtest and positions / selections after the dates are checked.", "Missing unit-risk column = 0; one measure's table may carry extra history.", "DESIGN.md 5 C20"),
+    "C20": ("exhaustive product: trees x multipliers x positions x unit-risk tables x history depth; hedge instrument sets; all close/roll date assignments in real backtests; chained / converging / swapping rolls x child order x table order x maturity dates stepped by hand", "Risk aggregation is recomputed independently for every node and date of every case; after HedgeRisks the residual risk must be zero (square) or least-squares minimal; every assignment of close / roll dates to two securities is run in a backtest and positions / selections after the dates are checked.", "Missing unit-risk column = 0; one measure's table may carry extra history.", "DESIGN.md 5 C20"),
 }
 
 PENDING = "check not built yet in this session (work in progress, see DESIGN.md section 5)"
